@@ -81,6 +81,7 @@ type Gen struct {
 	deferredOrd []string
 	retReach []Term
 	curInstr ssa.Instruction
+	lastWritten []ssa.Value
 }
 
 // shared is the script under construction; inlined callees share it with
@@ -98,6 +99,7 @@ type shared struct {
 	abstracted []string
 	assumed    map[string]bool // contracts used (callee keys)
 	inlined    map[string]bool
+	usedClauses   map[string]bool // clauses of verified callees assumed in this function
 	usedSpecFuncs map[string]bool
 	uncontracted  map[string]bool // in-repo callees havocked by mod-set
 	external      map[string]bool // dependency callees without contract
@@ -222,7 +224,7 @@ func (g *Gen) addObl(kind, label string, reach Term, goal Term, src string, cove
 func GenFunction(prog *Program, u *Universe, fn *ssa.Function, con *spec.FuncContract) (obls []*Obligation, err error) {
 	g := &Gen{prog: prog, u: u, fn: fn, con: con, name: displayName(fn),
 		shared: &shared{declared: map[string]bool{}, ordinals: map[string]int{}, assumed: map[string]bool{}, inlined: map[string]bool{},
-			usedSpecFuncs: map[string]bool{}, uncontracted: map[string]bool{}, external: map[string]bool{}},
+			usedSpecFuncs: map[string]bool{}, uncontracted: map[string]bool{}, external: map[string]bool{}, usedClauses: map[string]bool{}},
 		tuples: map[ssa.Value][]Term{}, strFrom: map[Term]Term{}, rangeSt: map[ssa.Value]*rangeState{},
 		vals: map[ssa.Value]Term{}, places: map[ssa.Value]*Place{},
 		clos: map[ssa.Value]*ssa.MakeClosure{}, reach: map[*ssa.BasicBlock]Term{}, exit: map[*ssa.BasicBlock]*State{},
@@ -736,3 +738,8 @@ func (g *Gen) abstractedOnce(msg string) {
 	}
 	g.abstracted = append(g.abstracted, msg)
 }
+
+// SkipClauses: postcondition clauses of verified functions that do not
+// discharge on the unchanged tree (committed in /verif/unproved_clauses.json);
+// they are never assumed at call sites.
+var SkipClauses = map[string]bool{}
